@@ -3,6 +3,7 @@ import Idn.Basic
 import Idn.Merge
 import Idn.MergeIndex
 import Idn.CouplesMerge
+import Idn.DevsConsume
 import Idn.Devs
 namespace IdnDrv
 open Idn
@@ -48,6 +49,21 @@ partial def loop (h : IO.FS.Stream) : IO Unit := do
     let shr := fun (l : List (List Nat)) => ";".intercalate (l.map fun r => ".".intercalate (r.map toString))
     IO.println (",".intercalate o.files ++ " # " ++ ",".intercalate (o.lines.map toString) ++ " # " ++ shc o.fm ++ " # " ++
       shc o.pm ++ " # " ++ shr o.pf ++ " # " ++ ";".intercalate o.people)
+  | "dc" :: ce :: reps =>
+    let pls := fun (s : String) => match (s.splitOn "/").map (·.toInt!) with
+      | [x, y, z] => (⟨x, y, z⟩ : DevsM.LS) | _ => ⟨0, 0, 0⟩
+    let cs := reps.filterMap fun r => match r.splitOn ":" with
+      | [h, np, au, tk, nch, mf, st] =>
+        let stats := if st = "" then [] else (st.splitOn "|").filterMap fun kv => match kv.splitOn "=" with
+          | [k, v] => some ((if k = "_" then "" else k), pls v) | _ => none
+        some (⟨h.toNat!, np.toNat!, au.toNat!, tk.toNat!, nch.toNat!, mf = "1", stats⟩ : DevsC.Cin)
+      | _ => none
+    let m := (DevsC.run (ce = "1") cs).ticks
+    let m := m.mergeSort (fun x y => x.1.1 < y.1.1 || (x.1.1 == y.1.1 && x.1.2 ≤ y.1.2))
+    let fls := fun (l : DevsM.LS) => s!"{l.added}/{l.removed}/{l.changed}"
+    IO.println (" ".intercalate (m.map fun ((tk, dv), s) =>
+      let lg := (s.langs.mergeSort (fun x y => x.1 ≤ y.1)).map fun (k, v) => (if k = "" then "_" else k) ++ "=" ++ fls v
+      s!"{tk}:{dv}:{s.commits}:{fls s.ls}:" ++ ",".intercalate lg))
   | ["car", b1, e1, c1, b2, e2, c2] =>
     (match CmM.Car.merge ⟨b1.toInt!, e1.toInt!, c1.toInt!⟩ ⟨b2.toInt!, e2.toInt!, c2.toInt!⟩ with
     | some c => IO.println s!"{c.begin} {c.finish} {c.commits}"
